@@ -26,6 +26,8 @@ import Pdb.Model.ConcReadDriver
 import Pdb.Model.LockDir
 import Pdb.Model.PhysRec
 import Pdb.Model.PhysRecRc
+import Pdb.Model.PhysRecV
+import Pdb.Model.PhysRecD
 import Pdb.Model.MultiTreePhys
 import Pdb.Model.C02xTxDriver
 import Pdb.Model.ConcSlotDriver
@@ -131,7 +133,7 @@ structure State where
   c09 : Pdb.Index.DState := Pdb.Index.DState.init
   c02x : Pdb.C02xDriver.State := none
   c02xt : Pdb.C02xTxDriver.State := none
-  physrec : Pdb.PhysRec.DState := Pdb.PhysRec.DState.init
+  physrec : Pdb.PhysRec.VState := {}
   mtphys : Pdb.MultiTreePhys.DState := none
   c05s : Pdb.CSlotDriver.State := none
   t3 : Pdb.T3.State := none
@@ -203,7 +205,7 @@ def stepLine (s : State) (line : String) : State × String :=
     let (c, o) := Pdb.C02xTxDriver.step s.c02xt rest
     ({ s with c02xt := c }, o)
   | "physrec" :: rest =>
-    let (d, out) := Pdb.PhysRec.stepR s.physrec rest
+    let (d, out) := Pdb.PhysRec.stepD s.physrec rest
     ({ s with physrec := d }, out)
   | "mtphys" :: rest =>
     let (d, out) := Pdb.MultiTreePhys.step s.mtphys rest
